@@ -16,16 +16,23 @@ var (
 )
 
 // SetKill arms the crash point for this process.
+//
+//go:norace
 func SetKill(at uint64, torn bool) { killAt, killTorn = at, torn }
 
+//go:norace
 func SetMutationLog(f func(n uint64, kind, path string)) { mutationLog = f }
 
+//go:norace
 func Mutations() uint64 { return mutations }
 
+//go:norace
 func ResetMutations() { mutations = 0 }
 
 // Mutation marks the point just before a persistent mutation. It returns true if the caller
 // is a write that must be torn (write a prefix, then call KillNow).
+//
+//go:norace
 func Mutation(kind, path string) (torn bool) {
 	mutations++
 	if mutationLog != nil {
@@ -44,12 +51,17 @@ func Mutation(kind, path string) (torn bool) {
 }
 
 // KillNow is process death: no deferred function, no flush, no close.
+//
+//go:norace
 func KillNow() {
 	_ = syscall.Kill(syscall.Getpid(), syscall.SIGKILL)
 	select {}
 }
 
 // IDRand is the stream that feeds random identifiers (uuid) and the DI random source.
+//
+//go:norace
 func IDRand() *Rand { return idRand }
 
+//go:norace
 func SeedIDs(seed uint64) { idRand = NewRand(seed).Derive("ids") }
